@@ -16,6 +16,8 @@
 #include <vcase.h>
 #include <memory>
 #include <cstring>
+#include <csignal>
+#include <unistd.h>
 
 namespace vs = khizmax_libcds_verif;
 typedef cds::sync::spin_lock<cds::backoff::empty> lock_type;
@@ -360,19 +362,39 @@ static void run_pool( vcase::Case const& c )
     }
 }
 
+// A case that crashes (e.g. unlock() dereferencing a null m_pLock) or never ends (a lock that is never released)
+// must still yield its event log: it is the concrete failing input.  SIGSEGV/SIGABRT/SIGBUS and a per-case
+// alarm dump the log collected so far, mark the case, and end the process; checks/C22.py re-runs the rest.
+static vcase::Case const* g_case = nullptr;
+static void dump_and_exit( int sig )
+{
+    if ( g_case ) {
+        vcase::print_log( *g_case );
+        std::printf( "monitor %s %d\n", sig == SIGALRM ? "hung" : "crashed", sig );
+        std::fflush( stdout );
+    }
+    _exit( sig == SIGALRM ? 124 : 128 + sig );
+}
+
 int main( int argc, char** argv )
 {
+    std::signal( SIGSEGV, dump_and_exit ); std::signal( SIGABRT, dump_and_exit ); std::signal( SIGBUS, dump_and_exit );
+    std::signal( SIGALRM, dump_and_exit );
     if ( argc < 2 ) { std::fprintf( stderr, "usage: %s casefile [spin|re|arr|inj|pool]\n", argv[0] ); return 2; }
     std::string mode = argc > 2 ? argv[2] : "spin";
     std::ifstream in( argv[1] );
     vcase::Case c;
     while ( vcase::read_case( in, c )) {
+        g_case = &c;
+        alarm( 10 );
         if ( mode == "spin" ) run_spin( c );
         else if ( mode == "re" ) run_re( c );
         else if ( mode == "arr" ) run_arr( c );
         else if ( mode == "inj" ) run_inj( c );
         else if ( mode == "pool" ) run_pool( c );
         else { std::fprintf( stderr, "unknown mode %s\n", mode.c_str()); return 2; }
+        alarm( 0 );
+        g_case = nullptr;
         std::fflush( stdout );   // a crash / hang in a later case must not lose this one
     }
     return 0;
